@@ -25,18 +25,24 @@ def log(*a):
     print(*a, flush=True)
 
 
-def build_harness(profile="checked"):
+def build_harness(profile="checked", features=None):
+    """cargo build of the harness against /repo's working tree; `features` selects an alternative cargo
+    feature set of the crate under test (own target directory)"""
     t0 = time.time()
     env = dict(os.environ, CARGO_NET_OFFLINE="true")
-    p = subprocess.run(["cargo", "build", "--offline", "--profile", profile], cwd=HARNESS, env=env,
-                       stdout=subprocess.PIPE, stderr=subprocess.STDOUT, text=True)
+    cmd = ["cargo", "build", "--offline", "--profile", profile]
+    tdir = "target"
+    if features:
+        tdir = "target_" + features
+        cmd += ["--no-default-features", "--features", "hooks " + features, "--target-dir", tdir]
+    p = subprocess.run(cmd, cwd=HARNESS, env=env, stdout=subprocess.PIPE, stderr=subprocess.STDOUT, text=True)
     if p.returncode != 0:
         sys.stdout.write(p.stdout[-4000:])
-        raise ToolError("cargo build of the harness against /repo failed (profile %s)" % profile)
-    exe = "%s/target/%s/abyverif" % (HARNESS, profile)
+        raise ToolError("cargo build of the harness against /repo failed (profile %s, features %s)" % (profile, features))
+    exe = "%s/%s/%s/abyverif" % (HARNESS, tdir, profile)
     if not os.path.exists(exe):
         raise ToolError("harness binary missing: " + exe)
-    log("[build] harness (%s) built against /repo working tree in %.1fs" % (profile, time.time() - t0))
+    log("[build] harness (%s%s) built against /repo working tree in %.1fs" % (profile, " " + features if features else "", time.time() - t0))
     return exe
 
 
@@ -157,6 +163,12 @@ def tlc_mc(module, cfg, workers=8, xmx="8g", timeout=3600, expect_violation=None
         if m2 and res["violated"] is None:
             res["violated"] = line.strip()
     ok = "Model checking completed. No error has been found." in out
+    msim = re.search(r'The number of states generated: (\d+)', out)
+    if msim:
+        # random simulation (-simulate): states checked along random behaviours, no closure
+        res["states"] = res["transitions"] = int(msim.group(1))
+        res["simulation"] = True
+        ok = "Error:" not in out and "Finished in" in out
     if expect_violation:
         if res["violated"] is None or expect_violation not in res["violated"]:
             raise ToolError("witness property %s was NOT violated in %s: the branch it guards is unreachable (vacuity)\n%s"
